@@ -427,5 +427,8 @@ def rule_version_details(ctx, repo, eng):
                     ok_ = isinstance(v_, ast.Constant) and ((v_.value is None) if want_none else (v_.value is True))
                     r.check(ok_, key, common.site_of(md, n), 'reported as %s' % ('None' if want_none else 'True'),
                             'a version message below the gate `%s` reports %s = %s' % (norm(n.test), fld, norm(v_)), sure=isinstance(v_, ast.Constant))
+                elif fld == 'fRelay' and any(isinstance(x, ast.Assign) and norm(x.targets[0]) == 'self.fRelay' and isinstance(x.value, ast.Constant) and x.value.value is True
+                                             for x in ast.walk(repo.get_function('bitcoin.messages.msg_version.__init__').node)):
+                    r.ok(key, common.site_of(md, n), 'the constructor already sets fRelay = True')
                 else:
                     r.violated(key, common.site_of(md, n), 'a version message below the gate `%s` keeps the constructor\'s %s (a value that is not in the bytes) instead of reporting it absent' % (norm(n.test), fld), sure=True)
